@@ -8,7 +8,7 @@ __all__ = [
 ]
 
 _CompNode: typing.TypeAlias = ListComp | SetComp | DictComp | GeneratorExp
-T = typing.TypeVar("T", expr, NamedExpr, Name, _CompNode)
+T = typing.TypeVar("T", expr, NamedExpr, Name, Lambda, _CompNode)
 
 
 class PendingExprGeneric(typing.Generic[T]):
@@ -124,6 +124,54 @@ class PendingComp(PendingExprGeneric[_CompNode]):
             raise RuntimeError("Unknown comprehension target")
 
 
+class PendingLambda(PendingExprGeneric[Lambda]):
+    """
+    The parameters of a lambda are plain names inside its body,
+    whatever the enclosing namespace does with the same spelling.
+    Defaults are evaluated (and rewritten) in the enclosing namespace.
+    """
+
+    target_names: set[str]
+
+    def __init__(self, node: Lambda, nsp: Namespace):
+        super().__init__(node)
+        self.nsp = nsp
+        self.target_names = set()
+        self.pushed = False
+
+    def _iter_fields(self):
+        args = self.node.args
+        defaults = []
+        for default in args.defaults:
+            defaults.append((yield default))
+        kw_defaults = []
+        for kw_default in args.kw_defaults:
+            kw_defaults.append(None if kw_default is None else (yield kw_default))
+        self.converted_dict["args"] = arguments(
+            posonlyargs=args.posonlyargs,
+            args=args.args,
+            vararg=args.vararg,
+            kwonlyargs=args.kwonlyargs,
+            kw_defaults=kw_defaults,
+            kwarg=args.kwarg,
+            defaults=defaults,
+        )
+
+        for _arg in args.posonlyargs + args.args + args.kwonlyargs:
+            self.target_names.add(_arg.arg)
+        for _arg in (args.vararg, args.kwarg):
+            if _arg is not None:
+                self.target_names.add(_arg.arg)
+        self.nsp.comp_stack.append(self)
+        self.pushed = True
+        self.converted_dict["body"] = yield self.node.body
+
+    def get_result(self) -> expr:
+        assert self.nsp.comp_stack[-1] is self
+        self.nsp.comp_stack.pop()
+        return super().get_result()
+
+
 class ExpressionTransformer:
     def __init__(self, nsp: Namespace):
         self.pending_stack: list[PendingExprGeneric] = []
@@ -136,6 +184,8 @@ class ExpressionTransformer:
             return PendingName(node, self.nsp)
         elif isinstance(node, (ListComp, SetComp, DictComp, GeneratorExp)):
             return PendingComp(node, self.nsp)
+        elif isinstance(node, Lambda):
+            return PendingLambda(node, self.nsp)
         else:
             return PendingExpr(node)
 
